@@ -313,6 +313,17 @@ def run(ctx):
         tp = {pre: pos for pos, pre in mt['tests']}
         src = [k for k, ln in sorted(set((k, ln) for k, ln in t['order']), key=lambda x: x[1])]
         zero_first = 'zero' in src and 'prefix:0' in src and src.index('zero') < src.index('prefix:0')
+        if not zero_first and '0' in tp:
+            # the prefix tests live in a helper (inlined here): the comparison with the literal "0" dominates the octal prefix test
+            from flow import origins as _og20
+            def _is_zero_lit(a):
+                if not isinstance(a, dict):
+                    return False
+                if 'l' not in a:
+                    return str(a.get('v')) in ('"0"', "'0'")
+                return any(og[0] == 'const' and str(og[1].get('v')) == '"0"' for og in _og20(mb, a))
+            zl = [pos for pos, t_ in mb.iter_calls() if call_matches(t_, r'PartialEq.*::(eq|ne)$|cmp::PartialEq::(eq|ne)$') and any(_is_zero_lit(a) for a in t_['args'])]
+            zero_first = any(mb.pos_dominates(z, tp['0']) for z in zl)
         ok_order = zero_first and '0' in tp and all(p in tp and mb.pos_dominates(tp[p], tp['0']) for p in ('0x', '0X', '0b', '0B'))
         C.check(ok_order, 'C20-SIB-radix', name + '|arm-order', 'in %s the one-character prefix "0" (octal) is tested before the literal "0" or before a two-character prefix: "0" would be read as an empty octal number / "0x10" as octal' % name, where,
                 sample={'fn': name, 'order': src})
